@@ -601,6 +601,7 @@ func TestC08(t *testing.T) {
 		}
 	}
 
+	rep.CorrIsSpec = true
 	flush()
 	rep.write(t, dir)
 }
